@@ -91,15 +91,16 @@ def _trace_rodded(rng, n_ring, n_duct, adiabatic, p_none=False):
     return cells, tr.conds, rr
 
 
-def _trace_unrodded(rng, adiabatic):
-    from dassh.region_unrodded import SingleNodeHomogeneous
+def _trace_unrodded(rng, adiabatic, multi=False):
+    """multi: the six-node model - every wall cell faces its OWN coolant node"""
+    from dassh.region_unrodded import MultiNodeHomogeneous, SingleNodeHomogeneous
     ftf = [0.11, 0.116]
-    reg = SingleNodeHomogeneous('ur', 0.0, 1.0, ftf, 0.3, 5.0, du.const_material('cool'),
-                                du.const_material('duct', k=25.0), None)
+    cls = MultiNodeHomogeneous if multi else SingleNodeHomogeneous
+    reg = cls('ur', 0.0, 1.0, ftf, 0.3, 5.0, du.const_material('cool'), du.const_material('duct', k=25.0), None)
     tr = Trace()
     o = copy.copy(reg)
     o.temp = {k: v.copy() for k, v in reg.temp.items()}
-    o.temp['coolant_int'] = symarray(tr, 'Tc', [rng.uniform(600, 700)])
+    o.temp['coolant_int'] = symarray(tr, 'Tc', [rng.uniform(600, 700) for _ in range(6 if multi else 1)])
     o.temp['duct_mw'] = symarray(tr, 'Tmold', np.full((1, 6), 600.))
     o.temp['duct_surf'] = np.empty((1, 2, 6), dtype=object)
 
@@ -113,16 +114,17 @@ def _trace_unrodded(rng, adiabatic):
     o.duct_thickness = tr.var('th', reg.duct_thickness)
     tg = symarray(tr, 'Tg', [rng.uniform(550, 650) for _ in range(6)])
     hg = symarray(tr, 'hg', [rng.uniform(1e3, 1e5) for _ in range(6)])
-    f = rebind(SingleNodeHomogeneous._calc_duct_temp, tr)
+    f = rebind(cls._calc_duct_temp, tr)
     f(o, tg, hg, adiabatic)
     cells = []
     for j in range(6):
-        mp = {'kw': 'kw', 'th': 'th', 'h_in': 'h_in', 'Tc_0': 't_in', 'Tg_%d' % j: 't_out', 'hg_%d' % j: 'h_out'}
+        mp = {'kw': 'kw', 'th': 'th', 'h_in': 'h_in', 'Tc_%d' % (j if multi else 0): 't_in', 'Tg_%d' % j: 't_out',
+              'hg_%d' % j: 'h_out'}
         tr2 = Trace()
         ex = dict(mw=rename(o.temp['duct_mw'][0, j], mp, tr2),
                   sin=rename(o.temp['duct_surf'][0, 0, j], mp, tr2),
                   sout=rename(o.temp['duct_surf'][0, 1, j], mp, tr2))
-        cells.append(("unrodded cell=%d adiab=%s" % (j, adiabatic), ex, adiabatic))
+        cells.append(("unrodded%s cell=%d adiab=%s" % (" six-node" if multi else "", j, adiabatic), ex, adiabatic))
     return cells, tr.conds
 
 
@@ -182,6 +184,8 @@ def build_gen(ctx, rng):
     # --- unrodded
     for tagname, adiabatic in (("coupled", False), ("adiab", True)):
         cells, conds = _trace_unrodded(rng, adiabatic)
+        cells6, conds6 = _trace_unrodded(rng, adiabatic, multi=True)     # same closed form, each cell with its own coolant node
+        cells = cells + cells6
         grp = _canon(cells)
         ctx.count("cells_traced", len(cells))
         for k, (key, members) in enumerate(sorted(grp.items(), key=lambda kv: -len(kv[1]))):
@@ -278,29 +282,32 @@ def oracle(ctx, rng, n_cases):
                             flow=fr))
         ctx.count("oracle_rodded_cells", n_duct * nd)
     # unrodded
-    from dassh.region_unrodded import SingleNodeHomogeneous
-    for case in range(max(5, n_cases // 3)):
+    from dassh.region_unrodded import MultiNodeHomogeneous, SingleNodeHomogeneous
+    for case in range(max(6, n_cases // 3)):
         ftf_in = rng.uniform(0.05, 0.2)
         t = rng.uniform(0.001, 0.005)
-        reg = SingleNodeHomogeneous('ur', 0.0, 1.0, [ftf_in, ftf_in + 2 * t], rng.uniform(0.1, 0.9),
-                                    10 ** rng.uniform(-1, 1.5), du.const_material('c'),
-                                    du.const_material('d', k=rng.uniform(5, 40)), None)
+        multi = case % 2 == 1
+        reg = (MultiNodeHomogeneous if multi else SingleNodeHomogeneous)(
+            'ur', 0.0, 1.0, [ftf_in, ftf_in + 2 * t], rng.uniform(0.1, 0.9), 10 ** rng.uniform(-1, 1.5), du.const_material('c'),
+            du.const_material('d', k=rng.uniform(5, 40)), None)
         reg._update_coolant_params(rng.uniform(500, 800))
-        reg.temp['coolant_int'] = np.array([rng.uniform(500, 900)])
+        reg.temp['coolant_int'] = np.array([rng.uniform(500, 900) for _ in range(6 if multi else 1)])
+        ctx.count("oracle_unrodded_six_node" if multi else "oracle_unrodded_single_node")
         adiabatic = rng.random() < 0.3
         tg = np.array([rng.uniform(500, 900) for _ in range(6)])
         hg = np.array([10 ** rng.uniform(2, 5.5) for _ in range(6)])
         reg._calc_duct_temp(tg, hg, adiabatic)
         ctx.evals += 1
         for j in range(6):
-            res = flux_residuals(reg.temp['coolant_int'][0], tg[j], reg.coolant_params['htc'], hg[j], 0.0,
+            res = flux_residuals(reg.temp['coolant_int'][j if multi else 0], tg[j], reg.coolant_params['htc'], hg[j], 0.0,
                                  reg.duct_thickness, reg.duct.thermal_conductivity, reg.temp['duct_mw'][0, j],
                                  reg.temp['duct_surf'][0, 0, j], reg.temp['duct_surf'][0, 1, j], adiabatic)
             w = max(abs(v) for v in res.values())
             worst = max(worst, w)
             if w > 1e-8:
-                ctx.violation("c11-unrodded-flux", "low-fidelity duct cell violates the slab identities (%.3g)" % w,
-                              case=dict(cell=j, adiabatic=adiabatic, residuals=res))
+                ctx.violation("c11-unrodded-flux", "low-fidelity (%s) duct cell violates the slab identities against the coolant it "
+                              "faces (%.3g)" % ("six-node" if multi else "single node", w),
+                              case=dict(cell=j, adiabatic=adiabatic, residuals=res, model="6node" if multi else "simple"))
                 return worst
         ctx.count("oracle_unrodded_cells", 6)
     return worst
